@@ -881,6 +881,35 @@ func (c *Ctx) checkOnceGuard(r *Report, bind map[*types.Var]string) {
 	if !set {
 		bad = append(bad, "the initialised flag is never set")
 	}
+	// the flag is raised before the first effect, so that Destroy can always undo a Refresh that fails later
+	var setInstr ssa.Instruction
+	eachInstr(rf, func(in ssa.Instruction) {
+		if st, ok := in.(*ssa.Store); ok && c.accessPath(st.Addr, fr) == "global:global.init" {
+			if k, okc := constOf(st.Val); okc && k.ExactString() == "true" {
+				setInstr = in
+			}
+		}
+	})
+	if setInstr != nil {
+		eachInstr(rf, func(in ssa.Instruction) {
+			eff := ""
+			switch x := in.(type) {
+			case *ssa.Store:
+				if fa, ok := x.Addr.(*ssa.FieldAddr); ok {
+					if n, ok := bind[fieldOfAddr(fa)]; ok {
+						eff = "binding of " + n
+					}
+				}
+			case ssa.CallInstruction:
+				if x.Common().IsInvoke() && x.Common().Method.Name() == "Start" {
+					eff = "call Start()"
+				}
+			}
+			if eff != "" && !instrDominates(setInstr, in) {
+				bad = append(bad, fmt.Sprintf("%s at %s happens before the initialised flag is raised: if Refresh fails after it, Destroy is a no-op and the bindings keep pointing at the rejected configuration's loggers", eff, c.instrPos(in)))
+			}
+		})
+	}
 	if len(bad) > 0 {
 		r.Fail(key, c.instrPos(guard), "%s", strings.Join(uniq(bad), "; "))
 	} else {
